@@ -1,5 +1,7 @@
 """C05 - cut commits the clause and nothing else."""
-from .. import gen, progcheck
+from .. import gen, progcheck, par, scen
+from ..frame import Check
+from ..common import Sym
 PROP = 'C05'
 
 
@@ -7,12 +9,56 @@ def knobs(rnd):
     return gen.Knobs(cut=True, ctrl=rnd.random() < 0.7, eq=True, max_body=5, n_rules=(2, 4), recursive=0.1)
 
 
+def mixed_case(rep, drv, rnd, i):
+    """cuts next to predicates that are not compiled clauses of the same function: fact predicates
+    re-implemented as Python generators that yield True, and definitions chained by a second load.
+    A cut (or a true value) in one of them must not end the caller's other alternatives."""
+    g = gen.ProgGen(rnd, gen.Knobs(cut=True, ctrl=rnd.random() < 0.5, eq=True, max_body=4, n_rules=(2, 3), n_facts=(2, 4)))
+    prog = g.program()
+    qs = g.queries(3)
+    factpreds = sorted({(c[0], len(c[1])) for c in prog if c[0].startswith('f') and len(c[1]) >= 1})
+    ops = []
+    if factpreds and rnd.random() < 0.7:
+        subset = [p for p in factpreds if rnd.random() < 0.5] or [rnd.choice(factpreds)]
+        rest = [c for c in prog if (c[0], len(c[1])) not in subset]
+        ops.append(('load', 'overwrite', rest))
+        for (name, arity) in subset:
+            rows = [progcheck.source_to_model_row(c[1]) for c in prog if (c[0], len(c[1])) == (name, arity)]
+            ops.append(('regpy', name, arity, rows, None, rnd.choice(['explicit', 'inferred']), True))      # yields True
+        rep.count('python-predicates-yield-True')
+    else:
+        ops.append(('load', 'overwrite', prog))
+    if rnd.random() < 0.5:
+        # a second definition of some rule predicates, chained behind the first
+        extra = []
+        for c in prog:
+            if c[0].startswith('r') and rnd.random() < 0.5:
+                extra.append((c[0], [('A', 'late')] * len(c[1]), 'tru'))
+        if extra:
+            ops.append(('load', 'combine', extra))
+            rep.count('chained-definitions')
+    for name, args in qs:
+        ops.append(('query', name, ('all',), args))
+    if scen.three_way(rep, drv, ops, 'case %d mixed' % i) == 'ok':
+        rep.nontriv(scen.norm([scen.ops_json(ops[:1]), [q[0] for q in qs]]))
+
+
+def case(rep, drv, rnd, i, tier):
+    if i % 4 == 3:
+        return mixed_case(rep, drv, rnd, i)
+    return progcheck.case(rep, drv, rnd, i, tier)
+
+
 def run(tier):
-    progcheck.run(PROP, tier, knobs, 300, 8000,
-                  rule='stratified random programs whose rule bodies contain ! as first/middle/last goal, inside ; branches '
-                       'and inside then/else branches (never inside a condition or \\+), with multi-clause predicates '
-                       'called from callers that have alternatives; leaf goals have 0-3 solutions; non-trivial = the '
-                       'reference yields >= 1 answer; distinct = distinct (program, query)')
+    n = 400 if tier == 'quick' else 10000
+    progcheck.configure(PROP, knobs=knobs, sched_mode='all', queries_per_prog=3)
+    with Check(PROP, tier) as chk:
+        par.run_cases(chk.rep, 'harness.checks.c05', 'case', n)
+        chk.finish(rule='stratified random programs whose rule bodies contain ! as first/middle/last goal, inside ; branches '
+                        'and inside then/else branches (never inside a condition or \\+), with multi-clause predicates '
+                        'called from callers that have alternatives; leaf goals have 0-3 solutions; one case in four mixes in fact '
+                        'predicates re-implemented as Python generators that yield True and definitions chained by a second load; '
+                        'non-trivial = the reference yields >= 1 answer; distinct = distinct (program, query)')
 
 
 replay = progcheck.replay
